@@ -22,7 +22,7 @@ pub fn def() -> CheckDef {
         },
         gen,
         run,
-        rule: "one case = one base image (a drawn history through the library, or a drawn layout by the independent writer; V3/V4; cases 0-8 are the fuzz regressions shipped with the crate, cases 9-16 share one 7.3 MB V3 base with a DIFAT sector whose corruptions are spread over them) and the ENUMERATION of every single-field corruption the independent parser can locate - every header field, used/first-unused/last DIFAT slots, every FAT and MiniFAT cell (capped), every field of every directory entry - times a value palette (0, 1, self, +-1, n-1, n, n+1, MAXREGSECT, the five special values, 63/64/4095/4096, 2^32, 2^63, u64::MAX, chain starts), plus truncation at every sector boundary +-1 and drawn offsets, extensions, bit flips biased to structural sectors, lost and misdirected sector writes, mid-operation crash / torn-write images of the last build operation at (a capped set of) seam calls, and drawn pairs of the above. Each damaged image is opened in both modes and, if accepted, walked, listed, every entry looked up, every stream read (read_to_end, fill_buf/consume, seeks to 0 / mid / len / len+1 / i64 and u64 extremes each followed by a read). Oracle: Ok or Err; no panic; per-call seam-step budget; peak live memory <= 64 MiB + 64 x image length. sub_runs = damaged images probed. Non-trivial: at least one damaged image was ACCEPTED by open and read; distinct = distinct damaged-image hashes.",
+        rule: "one case = one base image (a drawn history through the library, or a drawn layout by the independent writer; V3/V4; cases 0-8 are the fuzz regressions shipped with the crate, cases 9-16 share one 7.3 MB V3 base with a DIFAT sector whose corruptions are spread over them) and the ENUMERATION of every single-field corruption the independent parser can locate - every header field, used/first-unused/last DIFAT slots, every FAT and MiniFAT cell (capped), every field of every directory entry - times a value palette (0, 1, self, +-1, n-1, n, n+1, MAXREGSECT, the five special values, 63/64/4095/4096, 2^32, 2^63, u64::MAX, chain starts), plus truncation at every sector boundary +-1 and drawn offsets, extensions, bit flips biased to structural sectors, lost and misdirected sector writes, mid-operation crash / torn-write images of the last build operation at (a capped set of) seam calls, and drawn pairs of the above. Each damaged image is opened in both modes and, if accepted, walked, listed, every entry looked up, every stream read (read_to_end, fill_buf/consume, seeks to 0 / mid / len / len+1 / i64 and u64 extremes each followed by a read). Oracle: Ok or Err; no panic; per-call seam-step budget; peak live memory <= 64 MiB + 64 x image length. sub_runs = damaged images probed. Non-trivial: at least one damaged image was ACCEPTED by open and read; distinct = distinct damaged-image hashes. Bases include small foreign layouts with two or three DIFAT sectors (links between DIFAT sectors other than the first are corruptible).",
         assumptions: &["termination is judged by a seam-step budget per API call (1e6 + 200 per 64 bytes of image) and by the supervisor's CPU watchdog for loops that do no I/O", "uniformly random byte strings (which die at the signature check) are not the target; the 11 fuzz regressions shipped in /repo/tests are included as base images of the first cases"],
         cpu_limit_s: 600,
         fault_kinds: "F-FC field corruption (enumerated), F-BF bit flips, F-TR truncate/extend, F-LW lost write, F-MW misdirected write, F-CR/F-WT mid-operation crash images",
